@@ -35,6 +35,29 @@ pub fn is_block_expr(expr: &Expr) -> bool {
 }
 
 ///
+/// Returns `true` if expr binds looser than method call / field access, so it should be
+/// parenthesized before `.method()` can be appended to it.
+///
+pub fn is_lower_precedence_than_method_call(expr: &Expr) -> bool {
+    matches!(
+        expr,
+        Expr::Assign(_)
+            | Expr::AssignOp(_)
+            | Expr::Binary(_)
+            | Expr::Box(_)
+            | Expr::Break(_)
+            | Expr::Cast(_)
+            | Expr::Closure(_)
+            | Expr::Range(_)
+            | Expr::Reference(_)
+            | Expr::Return(_)
+            | Expr::Type(_)
+            | Expr::Unary(_)
+            | Expr::Yield(_)
+    )
+}
+
+///
 /// Parses input `ParseStream` until one of provided `GroupDeterminer`'s check will be valid or it reaches end.
 ///
 pub fn parse_until<'a, T: Parse + Clone + Debug>(
